@@ -500,12 +500,37 @@ func (c *Ctx) pkgByNameOrPath(name string, env *Env) *types.Package {
 	return nil
 }
 
+// lookupQualified finds pkgname.Symbol among all packages carrying that name (several
+// packages may share a name such as v2); imports of the contract's package come first.
+func (c *Ctx) lookupQualified(pkgName, sym string, env *Env) types.Object {
+	var cands []*types.Package
+	if p := c.P.typesPkg[env.pkgPath]; p != nil {
+		if p.Name() == pkgName {
+			cands = append(cands, p)
+		}
+		for _, imp := range p.Imports() {
+			if imp.Name() == pkgName || path.Base(imp.Path()) == pkgName {
+				cands = append(cands, imp)
+			}
+		}
+	}
+	for _, p := range c.P.allTypesPkgs {
+		if p.Name() == pkgName || path.Base(p.Path()) == pkgName {
+			cands = append(cands, p)
+		}
+	}
+	for _, p := range cands {
+		if o := p.Scope().Lookup(sym); o != nil {
+			return o
+		}
+	}
+	return nil
+}
+
 func (c *Ctx) lookupPkgName(name string, env *Env) *Val {
 	var obj types.Object
 	if i := strings.LastIndex(name, "."); i >= 0 {
-		if p := c.pkgByNameOrPath(name[:i], env); p != nil {
-			obj = p.Scope().Lookup(name[i+1:])
-		}
+		obj = c.lookupQualified(name[:i], name[i+1:], env)
 	} else if p := c.P.typesPkg[env.pkgPath]; p != nil {
 		obj = p.Scope().Lookup(name)
 	}
@@ -752,9 +777,7 @@ func (c *Ctx) resolveType(name string, env *Env) types.Type {
 	}
 	var obj types.Object
 	if i := strings.LastIndex(name, "."); i >= 0 {
-		if p := c.pkgByNameOrPath(name[:i], env); p != nil {
-			obj = p.Scope().Lookup(name[i+1:])
-		}
+		obj = c.lookupQualified(name[:i], name[i+1:], env)
 	} else if p := c.P.typesPkg[env.pkgPath]; p != nil {
 		obj = p.Scope().Lookup(name)
 	}
